@@ -71,13 +71,13 @@ def run(ctx):
     def centre(b, k):
         return T.div(T.add(T.idx(b, T.add(k, T.num(1))), T.idx(b, k)), T.num(2))
     cx, cy = centre(xb, row), centre(yb, col)
-    mind = T.mul(radius, T.sqrt(T.div(T.call(("m", "mean"), (col_(cells, "area"),)), ("mod", "numpy.pi"))))
+    mind = T.mul(radius, T.sqrt(T.div(T.call("mean", (col_(cells, "area"),)), ("mod", "numpy.pi"))))
     d2 = T.add(T.power(T.sub(cx, col_(cells, "xcm")), Fraction(2)), T.power(T.sub(cy, col_(cells, "ycm")), Fraction(2)))
     SEL = T.idx(T.attr(cells, "loc"), T.cmp("LtE", d2, T.power(mind, Fraction(2))))
-    A = T.call(("m", "sum"), (col_(SEL, "area"),))
+    A = T.call("sum", (col_(SEL, "area"),))
     b0 = ("bv", 0)
     r0 = T.idx(b0, T.num(1))
-    P = T.neg(T.call("numpy.sum", (("map", T.mul(T.idx(r0, ("str", "pressure")), T.idx(r0, ("str", "area"))), b0, T.call(("m", "iterrows"), (SEL,)), T.TRUE),)))
+    P = T.neg(T.call("sum", (("map", T.mul(T.idx(r0, ("str", "pressure")), T.idx(r0, ("str", "area"))), b0, T.call(("m", "iterrows"), (SEL,)), T.TRUE),)))
     a, b = sorted([T.call(("m", "isin"), (col_(bedges, "cell1"), col_(SEL, "ids"))), T.call(("m", "isin"), (col_(bedges, "cell2"), col_(SEL, "ids")))], key=repr)
     ESEL = T.idx(T.attr(bedges, "loc"), T.call("bitor", (a, b)))
 
@@ -231,6 +231,8 @@ PINNED = [
     ("principal stress keyed by swapped centres", _F, "self.principal_stress[(self.stress_tensor[1][0][row], \n                                            self.stress_tensor[1][1][column])]", "self.principal_stress[(self.stress_tensor[1][1][row], \n                                            self.stress_tensor[1][0][column])]"),
 ]
 PRESERVING = [
+    ("reductions spelled as numpy functions", _P, 'total_area = current_cell_mesh["area"].sum()', 'total_area = np.sum(current_cell_mesh["area"])'),
+    ("mean area through np.mean", _P, 'min_distance = radius * np.sqrt(cells["area"].mean() / np.pi)', 'min_distance = radius * np.sqrt(np.mean(cells["area"]) / np.pi)'),
     ("key with a separator", _P, 'sigmas[f"' + _KW + '"] = np.array([[sigma_xx', 'sigmas[f"' + _KW + '"] = np.array([[sigma_xx'),
     ("centre written the other way round", _P, "center = ((x_bins[row + 1] + x_bins[row]) / 2, (y_bins[column + 1] + y_bins[column]) / 2) ", "center = (0.5 * (x_bins[row] + x_bins[row + 1]), 0.5 * (y_bins[column] + y_bins[column + 1])) "),
     ("diagonal with the common factor pulled out", _P, "sigma_xx = (pressure_area_term + tension_xx) / total_area", "sigma_xx = pressure_area_term / total_area + tension_xx / total_area"),
